@@ -89,7 +89,9 @@ ObsP(ret, notif, hook, p) == [ret |-> ret, notif |-> notif, hook |-> hook, attem
 \* relay push (group__relay_push.go): startPushIfNeeded starts one connection per idle target while an
 \* RTMP or RTSP publisher is the input (on its arrival and on every tick)
 Pushable(i) == i \in NetPubs
-StartPush(pu, i) == IF Pushable(i) THEN [t \in PushTargets |-> IF pu[t] = "idle" THEN "conn" ELSE pu[t]] ELSE pu
+\* a connection being set up carries the URL parameters of the RTMP publisher it was started under ("connp")
+Conn(s) == s \in {"conn", "connp"}
+StartPush(pu, i) == IF Pushable(i) THEN [t \in PushTargets |-> IF pu[t] = "idle" THEN (IF i \in RtmpPubs THEN "connp" ELSE "conn") ELSE pu[t]] ELSE pu
 NStarted(pu, i) == IF Pushable(i) THEN Cardinality({t \in PushTargets : pu[t] = "idle"}) ELSE 0
 \* stopPushIfNeeded (delIn): attached push sessions are closed; connections still being set up are not touched
 StopPush(pu) == [t \in PushTargets |-> IF pu[t] = "att" THEN "idle" ELSE pu[t]]
@@ -350,13 +352,13 @@ PushFx ==
 \* the push target accepts the connection (handshake, connect, publish): the session attaches if an RTMP /
 \* RTSP publisher is (still) the input, otherwise it is closed again
 PushOk(t) ==
-  /\ push[t] = "conn"
+  /\ Conn(push[t])
   /\ push' = [push EXCEPT ![t] = IF Pushable(inp) THEN "att" ELSE "idle"]
   /\ act' = [name |-> "PushOk", x |-> t,
              obs |-> Obs(IF Pushable(inp) THEN "ok" ELSE "late", <<>>, <<>>),
-             plen |-> IF inp \in RtmpPubs THEN ParamLen ELSE 0]
+             plen |-> IF push[t] = "connp" THEN ParamLen ELSE 0]
 PushFail(t) ==
-  /\ push[t] = "conn"
+  /\ Conn(push[t])
   /\ push' = [push EXCEPT ![t] = "idle"]
   /\ act' = [name |-> "PushFail", x |-> t, obs |-> Obs("ok", <<>>, <<>>)]
 PushEnd(t) ==
